@@ -142,16 +142,21 @@ Fixpoint sn_dedup (l : list subnet) : list subnet :=
 Definition subnets_of_ip (i : ipam) (ip : N) : list subnet :=
   match pool_of (i_pools i) ip with Some p => p_nodesubnets p | None => [] end.
 
-(** ByKeyAndIPRanges key [] restricted to one IP: the oracle names it; it must be one of the key's *)
-Definition first_of_key (i : ipam) (key : str) (o : oracle) : option (option N) :=
+(** ByKeyAndIPRanges key [] restricted to one IP: the oracle names it; it must be one of the key's.  [k7] (repaired):
+    ByKeyAndIPRanges returns the key's IPs in ascending order, so "the first" is the SMALLEST IP of the key - Filter and Bind
+    agree on it; before the repair it was whichever Go's map iteration produced first (any IP of the key) *)
+Definition first_of_key_gen (k7 : bool) (i : ipam) (key : str) (o : oracle) : option (option N) :=
   match by_key i key, o_first o with
   | [], None => Some None
   | _ :: _, Some x => match i_alloc i !! x with
-                      | Some e => if str_eqb (e_key e) key then Some (Some x) else None
+                      | Some e => if str_eqb (e_key e) key && (negb k7 || forallb (fun kv => x <=? fst kv) (by_key i key))
+                                  then Some (Some x) else None
                       | None => None
                       end
   | _, _ => None
   end.
+Definition first_of_key := first_of_key_gen true.
+Definition first_of_key_old := first_of_key_gen false.
 
 (** supportReserveIPPolicy *)
 Definition supports_policy (p_kind_dp p_kind_sts : bool) (podname : str) (policy : N) : bool :=
